@@ -444,15 +444,17 @@ def r02_5(ctx):
     for q in (f"{CORE}:Kconfig._config_contents", f"{CORE}:Kconfig._min_config_contents_with_labels"):
         f = repo.func(q)
         construct = f"{f.short}/each symbol emitted at most once, at its first node"
-        ok = False
-        for n in ast.walk(f.node):
-            body = getattr(n, "body", None)
-            if not isinstance(body, list):
-                continue
-            for a, b in zip(body, body[1:]):
-                if (isinstance(a, ast.If) and ast.unparse(a.test).endswith("._visited") and len(a.body) == 1 and isinstance(a.body[0], ast.Continue)
-                        and isinstance(b, ast.Assign) and ast.unparse(b.targets[0]) == ast.unparse(a.test) and ast.unparse(b.value) == "True"):
-                    ok = True
+        # the mark is set, and the entry emitted, only for a symbol that is not marked yet - whatever the spelling
+        # (`if X._visited: continue` before it, or everything under `if not X._visited:`)
+        fl2 = Flow(f.node, resolver=Resolver(f.node)).run()
+        marks = [n for n in ast.walk(f.node) if isinstance(n, ast.Assign) and ast.unparse(n.targets[0]).endswith("._visited") and ast.unparse(n.value) == "True"]
+        emits = [n for n in ast.walk(f.node) if isinstance(n, ast.Attribute) and n.attr == "config_string" and isinstance(n.ctx, ast.Load)]
+        def unmarked(node):
+            return any(k.endswith("._visited") and not p for k, p in (fl2.guards_at(node) or set()))
+        mids = {id(m) for m in marks}
+        fl3 = Flow(f.node, events=lambda st_: ["marked"] if id(st_) in mids else [], track_guards=False).run()
+        ok = bool(marks) and all(unmarked(m) for m in marks) and bool(emits) and \
+            all("marked" in (fl3.events_at(repo.enclosing_stmt(e)) or set()) for e in emits)
         (ctx.ok(construct, f.loc(), nontrivial=False) if ok else ctx.bad(construct, "the visited/continue/mark sequence changed", f.loc()))
 
 
